@@ -79,4 +79,13 @@ PROPS["C17"] = dict(engines=["asrcfile"], design="5/C17",
          "on a scratch file (byte-level writes between polls) are validated with the read() step inferred by TLC; filenames likewise (ExactlyOnce, SortedPerPoll).",
     note="Trusted: TLC; virtual-time loop; local filesystem semantics of the sandbox; ASCII text (the multi-byte case is known finding F17).")
 
+PROPS["C19"] = dict(engines=["aloop"], design="5/C19",
+    technique="TLA+ spec LoopBinding (transcription of Stream.__init__ percolation; TLC exhaustive over construction sequences) + trace validation of real constructor calls for all argument combinations and every loop-requiring class",
+    text="TLC checks OneLoopPerPipeline, OneModePerPipeline, Inherits, AsyncStaysOnCaller, AsyncNeverStartsBG, FallbackBG, ExplicitLoop and ConflictRaises for "
+         "all sequences of <= 4 constructor calls (upstreams x loop none/L1/L2 x asynchronous None/True/False x ensure_io_loop); every recorded construction on the "
+         "real classes (generic Stream, 7 loop-requiring nodes, 8 source classes) must reproduce the specification's loop/mode of every node, whether it raised, "
+         "and whether the background loop was requested.",
+    note="Trusted: TLC; loop identity projection (L1/L2 fresh IOLoops, CUR = IOLoop.current(), BG = streamz' shared loop); joins of pipelines already bound to "
+         "different loops without an explicit argument are outside the statement (marked dirty and not judged).")
+
 # violations found by an engine shared between properties are attributed by v['property']
